@@ -239,11 +239,10 @@ func TestVerif_gossipreal(t *testing.T) {
 				continue
 			}
 			running++
-			n.ev.mu.Lock()
-			if n.ev.iam != nil && *n.ev.iam {
+			// "considers itself leader": through the public view (the bootstrap announcement of a seed precedes any subscriber)
+			if v, err := n.sys.Cluster().GetView(); err == nil && v.LeaderAddr == n.addr {
 				iam++
 			}
-			n.ev.mu.Unlock()
 		}
 		var viol []string
 		if !reached {
